@@ -201,6 +201,9 @@ func c15(p *core.Program, r *core.Report) {
 	}
 	const rq = "four-endpoint-distances"
 	r.Rule(rq, "in the 2D and 3D segment-to-segment distances a returned minimum over point-to-segment distances (builtin min or math.Min, outside loops) takes each of the four end points as the point once: when the segments do not cross the closest approach is at an end point of one of them, and which one is not known in advance - a minimum over two `facing` end points chosen by one ordinate misses the other two", 2)
+	minCount := map[string]int{}
+	tableDriven := map[string]bool{}
+	var minFns []*ssa.Function
 	for _, sib := range [][3]string{{"xy", "DistanceFromLineToLine", "DistanceFromPointToLine"}, {"xyz", "DistanceLineToLine", "DistancePointToLine"}} {
 		fn := mustFn(p, r, rq, sib[0], sib[1])
 		if fn == nil || len(fn.Params) < 4 {
@@ -254,6 +257,9 @@ func c15(p *core.Program, r *core.Report) {
 			pts := map[ssa.Value]bool{}
 			looped, nmin := false, 0
 			points(ret.Results[0], 0, pts, &looped, &nmin)
+			if looped && len(pts) > 0 {
+				tableDriven[short(fn)] = true
+			}
 			if nmin == 0 || len(pts) < 2 || looped {
 				continue // not a minimum over end-point distances (or one taken in a loop over a table)
 			}
@@ -266,9 +272,24 @@ func c15(p *core.Program, r *core.Report) {
 			}
 			r.Check(len(missing) == 0, rq, fmt.Sprintf("%s/min#%d", short(fn), n), p.Pos(ret.Pos()), true, "all four end points are measured", fmt.Sprintf("the minimum returned at %s does not measure the end point(s) %v against the other segment", p.Pos(ret.Pos()), missing))
 		}
-		if n == 0 {
-			r.OK(rq, short(fn)+"/no-explicit-minimum", p.Pos(fn.Pos()), true, "no minimum over end-point distances outside a loop (a table-driven loop is not decided)")
+		minCount[short(fn)] = n
+		minFns = append(minFns, fn)
+	}
+	// sibling cross-check: the 2D and the 3D function resolve "the closest approach of the lines lies outside a
+	// segment" the same way. While one of them takes the explicit minimum over the four end points, the other one
+	// doing something else (clamping parameters, two facing end points) is a disagreement between siblings, and a
+	// function without any such minimum no longer passes on its own (it used to: a rule matching zero sites).
+	anyMin := false
+	for _, n := range minCount {
+		anyMin = anyMin || n > 0
+	}
+	for _, fn := range minFns {
+		if minCount[short(fn)] > 0 {
+			continue
 		}
+		r.Check(!anyMin || tableDriven[short(fn)], rq, short(fn)+"/no-explicit-minimum", p.Pos(fn.Pos()), true,
+			"neither sibling takes a minimum over end-point distances outside a loop (a table-driven loop is not decided)",
+			"this function returns no minimum over the four end-point distances while its sibling does: when the lines' closest approach lies outside a segment the minimum is at an end point of one of them, and which one is not determined by one clamped parameter (a clamp-and-reproject that skips a re-projection returns an end-point-to-end-point distance)")
 	}
 	endpointCaseRule(p, r)
 	segmentPairMeasuresSegmentRule(p, r)
